@@ -33,6 +33,7 @@ The analysis `FillComputeSeq(*pre, acc, *post)` is built from the fixture elemen
 """
 import copy
 import itertools
+import random
 
 from harness.common import exc_name
 
@@ -217,6 +218,11 @@ ASSUMPTIONS = [
     "yields are always compared",
     "cases whose model reply contains `unmodelled` are not compared; they are counted in the evidence notes and the "
     "check fails when they exceed 1% of the cases",
+    "seed C11-K (judged inside): 'context.variable describing the argument variable' is read as the argument variable as "
+    "it is when the results are computed - a Variable is configured through __setattr__ too (public). Attributes set on "
+    "the argument-variable object after the SplitIntoBins was constructed or after the last fill (argvar.late) must be in "
+    "the yielded context.variable; the oracle and the model request use the final var_context. Open: a change between "
+    "two compute() calls; the inner variable of two-level splits (the cells hold deep copies of it: no claim)",
 ]
 RULE = ("quick and thorough: (E) exhaustive small scope - for 1-d edges [0,2], [0,2,4], [0,1,3] and 2-d edges "
         "[[0,2],[0,2,4]] every flow of length <= 2 (thorough: <= 3 in 1-d) over all integer points from one below to one "
@@ -231,7 +237,9 @@ RULE = ("quick and thorough: (E) exhaustive small scope - for 1-d edges [0,2], [
         "mixtures, long axes (6-129 bins, values on the borders; long flows of 30-400 values), large integers (2**31 .. 2**100, edges of very "
         "different sizes on one axis, values one beside an edge, also as floats with integer edges), arbitrary floats "
         "(S = 2**60: decimal fractions, values one ulp / 2**-k / 1e-16..1e-7 beside an edge), a source that re-uses one "
-        "context dictionary, every yielded object read again after the generator has ended. Non-trivial: a histogram "
+        "context dictionary, every yielded object read again after the generator has ended; (K) attributes of the "
+        "argument variable set after the construction / after the last fill (57 deterministic cases, 12 % of the random "
+        "ones from a stream of its own). Non-trivial: a histogram "
         "with >= 2 cells was yielded and >= 2 values fell inside the edges.")
 CASE_TIMEOUT = 5
 
@@ -523,8 +531,21 @@ def _make_argvar(a):
     return Combine(*vs, **_py(a.get("kw", {})))
 
 
+def _argvar_late(av, a, when):
+    """the attributes of the argument variable that are set AFTER the SplitIntoBins has been constructed
+    (`Variable.__setattr__`, public: `x.unit = "cm"`): a["late"] = [[when, name, value]..], when 0 = after the
+    construction (before the first fill), 1 = after the last fill (before compute())"""
+    for w, name, value in a.get("late", ()):
+        if w == when:
+            setattr(av, name, _py(value))
+
+
 def _argvar_context(a):
-    return copy.deepcopy(_make_argvar(a).var_context)
+    """the context of the argument variable AS IT IS WHEN THE RESULTS ARE COMPUTED (all late attributes set)"""
+    av = _make_argvar(a)
+    _argvar_late(av, a, 0)
+    _argvar_late(av, a, 1)
+    return copy.deepcopy(av.var_context)
 
 
 def _argvar_getter_spec(a):
@@ -1090,6 +1111,9 @@ def run_impl(case):
         sib = SplitIntoBins(seq, av, edges)
     except Exception as e:
         return {"init": exc_name(e)}
+    late = case.get("argvar_ok", True) and case["argvar"].get("late")
+    if late:
+        _argvar_late(av, case["argvar"], 0)     # the variable is decorated after the sequence was assembled
     # shared_ctx: the source of the flow owns ONE context dictionary and updates it in place before it yields the next
     # value (the analysis takes a private copy of every value first, see `snap`)
     shared = {} if case.get("shared_ctx") else None
@@ -1104,6 +1128,8 @@ def run_impl(case):
             return {"fill": {"at": k, "e": exc_name(e)}}
     if shared is not None:
         _inplace_clobber(shared)
+    if late:
+        _argvar_late(av, case["argvar"], 1)     # ... or after the flow has been filled, before the results are computed
     res = {}
     # the state of the cells (`cell_is_subflow`): `bins` is public, a cell is a sequence whose elements can be iterated
     # (public), the accumulator is a fixture object of this harness.  `_cur_context` (`context_is_last_inside`) is a
@@ -2524,15 +2550,63 @@ def _systematic_two_level(tier):
                        "flow": [{"d": {"t": list(p)}} for p in flow], "iter": it, "map": None}
 
 
+_LATE_ATTRS = [["unit", "cm"], ["unit", "mm"], ["latex_name", "x_{rec}"], ["range", {"l": [0, 10]}], ["name", "late"],
+               ["type", "coordinate"], ["coordinate", {"name": "x"}], ["scale", 2]]
+
+
+def _with_late(case, rng2):
+    """the argument variable gets attributes AFTER the SplitIntoBins has been constructed (`x.unit = "cm"`: new ones,
+    or other values of those it was made with), before the first fill and / or between the last fill and compute()
+    (`sentence 4: context.variable describes the argument variable`, not a snapshot of it).  `rng2` is a stream of its
+    own: the cases of the main stream stay what they were"""
+    if not case.get("argvar_ok", True):
+        return case
+    late = [[rng2.choice([0, 0, 1])] + copy.deepcopy(rng2.choice(_LATE_ATTRS)) for _ in range(rng2.choice([1, 1, 2, 3]))]
+    return dict(case, argvar=dict(copy.deepcopy(case["argvar"]), late=late))
+
+
+def _systematic_late():
+    """deterministic: every late attribute alone, at both times, 1-d variable and Combine; set twice; with compute() twice
+    and a second SplitIntoBins"""
+    xvar = {"kind": "var", "name": "x", "getter": {"k": "id"}, "type": "", "kw": {}}
+    uvar = {"kind": "var", "name": "x", "getter": {"k": "id"}, "type": "coordinate", "kw": {"unit": "cm"}}
+    cvar = {"kind": "combine", "vars": [{"name": "x", "i": 0, "type": ""}, {"name": "y", "i": 1, "type": ""}], "kw": {}}
+    it = {"sel": "all", "bare": False, "pre": [], "post": []}
+    flow1 = [{"d": 1}, {"d": 3, "c": {"data": "run1"}}, {"d": 7}]
+    flow2 = [{"d": {"t": [1, 1]}}, {"d": {"t": [1, 3]}, "c": {"data": "run1"}}, {"d": {"t": [5, 5]}}]
+    for var, edges, flow in ((xvar, [0, 2, 4], flow1), (uvar, [0, 2, 4], flow1), (cvar, [[0, 2], [0, 2, 4]], flow2)):
+        lates = [[[w] + a] for a in _LATE_ATTRS for w in (0, 1)]
+        lates += [[[0, "unit", "cm"], [1, "unit", "mm"]], [[0, "unit", "cm"], [0, "latex_name", "x_{rec}"]],
+                  [[1, "name", "late"], [1, "range", {"l": [0, 10]}]]]
+        for k, late in enumerate(lates):
+            c = {"edges": edges, "seq_ok": True, "argvar_ok": True, "bare_acc": False,
+                 "argvar": dict(copy.deepcopy(var), late=copy.deepcopy(late)),
+                 "spec": {"pre": [], "acc": "store" if k % 2 == 0 else "each", "post": []},
+                 "flow": copy.deepcopy(flow if k % 3 else flow[:1]), "iter": it if k % 2 == 0 else None, "map": None}
+            if k % 4 == 1:
+                c["twice"] = True
+            if k % 4 == 2:
+                c["reuse"] = True
+            yield c
+
+
 def gen_cases(ctx):
     """a generator (the thorough scope is enumerated lazily)"""
-    rng = ctx.rng
     ctx.exhaustive = False
     ctx.notes = _NOTES                      # filled in by compare()
     for c in _systematic(ctx.tier):
         yield c
     for c in _systematic_two_level(ctx.tier):
         yield c
+    for c in _systematic_late():
+        yield c
+    for k, c in enumerate(_gen_cases_random(ctx)):
+        rng2 = random.Random(f"C11:late:{ctx.tier}:{ctx.seed}:{k}")
+        yield _with_late(c, rng2) if rng2.random() < 0.12 else c
+
+
+def _gen_cases_random(ctx):
+    rng = ctx.rng
     n = 3400 if ctx.tier == "quick" else 60000
     big = ctx.tier == "thorough"
     for _ in range(n):
